@@ -1,15 +1,33 @@
 use crate::ctx::Ctx;
+pub mod c01;
 pub mod c04;
+pub mod c05;
+pub mod c06;
 pub mod c08;
+pub mod c09;
+pub mod c10;
+pub mod c11;
+pub mod c14;
 pub mod c16;
+pub mod c17;
+pub mod c20;
 
-pub const ALL: &[&str] = &["C04", "C08", "C16"];
+pub const ALL: &[&str] = &["C01", "C04", "C05", "C06", "C08", "C09", "C10", "C11", "C14", "C16", "C17", "C20"];
 
 pub fn run(prop: &str, ctx: &mut Ctx) -> bool {
     match prop {
+        "C01" => c01::run(ctx),
         "C04" => c04::run(ctx),
+        "C05" => c05::run(ctx),
+        "C06" => c06::run(ctx),
         "C08" => c08::run(ctx),
+        "C09" => c09::run(ctx),
+        "C10" => c10::run(ctx),
+        "C11" => c11::run(ctx),
+        "C14" => c14::run(ctx),
         "C16" => c16::run(ctx),
+        "C17" => c17::run(ctx),
+        "C20" => c20::run(ctx),
         _ => return false,
     }
     true
